@@ -145,6 +145,10 @@ func (p *PackageProgress) stageStreamData() error {
 		}()
 		offset, dataLen := stream.GetDataOffsetAndLen()
 		pack.Offset = offset
+		if oldLen, ok := pack.OffsetRecord[offset]; ok {
+			// 重复上传的同一段数据 不能重复累计已接收大小
+			pack.CurrentSize -= uint32(oldLen)
+		}
 		pack.OffsetRecord[offset] = dataLen
 		pack.OffsetDataRecord[offset] = p.historyData[headLen : headLen+bodyLen]
 		pack.CurrentSize += uint32(bodyLen)
